@@ -17,7 +17,7 @@ const (
 
 // ---------------------------------------------------------------- reference forms
 
-var formNames = []string{"abs-http", "abs-https", "scheme-rel", "path-abs", "path-rel", "dot", "dotdot", "query", "fragment", "pct"}
+var formNames = []string{"abs-http", "abs-https", "scheme-rel", "path-abs", "path-rel", "dot", "dotdot", "query", "fragment", "pct", "colon-query", "colon-name"}
 
 // ref returns the reference text planted in the document and the absolute URL a
 // browser requests for it from a page at <scheme>://site.example/a/b/page.html.
@@ -44,6 +44,10 @@ func ref(form, scheme, tok, ext string) (text, want string) {
 		return "?" + tok + "=1", scheme + "://" + pageHost + pagePath + "?" + tok + "=1"
 	case "fragment": // the fragment is not part of the request
 		return "m/" + f + "#frag", scheme + "://" + pageHost + "/a/b/m/" + f
+	case "colon-query": // a colon after the first path segment's "?": still a path-relative reference, not a scheme
+		return f + "?ratio=16:9", scheme + "://" + pageHost + "/a/b/" + f + "?ratio=16:9"
+	case "colon-name": // a colon in the file name, behind a "./" as authors write it
+		return "./" + tok + "_12:30." + ext, scheme + "://" + pageHost + "/a/b/" + tok + "_12:30." + ext
 	case "pct": // an escaped space stays escaped
 		return "m/" + tok + "%20v." + ext, scheme + "://" + pageHost + "/a/b/m/" + tok + "%20v." + ext
 	}
